@@ -27,4 +27,60 @@ def has (s pat : String) : Bool := infixOf pat.toList s.toList
 def startsWith (s pat : String) : Bool := isPrefix pat.toList s.toList
 
 
+/-! ### the module graph of the crate, computed from the fact table
+
+`crate_path` facts are the references into the crate's own module tree (use items, expression, type and
+macro-body paths, `super::` in top-level files); `mod` facts are module declarations.  The *portable
+closure* is the set of source files reachable from the files `PortableHash` is written in. -/
+
+/-- split a path at `::` -/
+def splitCC : List Char → List Char → List (List Char)
+  | [], acc => [acc.reverse]
+  | ':' :: ':' :: rest, acc => acc.reverse :: splitCC rest []
+  | c :: rest, acc => splitCC rest (c :: acc)
+
+def segsOf (s : String) : List String := (splitCC s.toList []).map String.ofList
+
+/-- file(s) of the top-level module `m`: `m.rs`, or everything under `m/` -/
+def moduleFiles (m : String) : List String :=
+  files.filter fun f => f == m ++ ".rs" || startsWith f (m ++ "/")
+
+/-- the module a root-level name is re-exported from (`pub use crate::m::Name` in lib.rs), if any -/
+def reexportModule (name : String) : Option String :=
+  (facts.find? fun f => f.file == "lib.rs" && f.kind == "crate_path" && !f.test &&
+      (segsOf f.detail).getLast? == some name && (segsOf f.detail).length ≥ 3).bind fun f => (segsOf f.detail)[1]?
+
+/-- files a `crate::…` path may lead into: the module named by the second segment, or the module the
+root-level name is re-exported from; a name defined in lib.rs itself leads to lib.rs -/
+def pathTargets (p : String) : List String :=
+  match segsOf p with
+  | _ :: m :: _ =>
+    if !(moduleFiles m).isEmpty then moduleFiles m
+    else match reexportModule m with
+      | some m' => moduleFiles m'
+      | none => ["lib.rs"]
+  | _ => []
+
+/-- file stem for submodule lookup: `portable.rs ↦ portable`, `x86/mod.rs ↦ x86` -/
+def stemOf (file : String) : String :=
+  let cs := file.toList
+  let noExt := cs.take (cs.length - 3)
+  let r := noExt.reverse
+  String.ofList (if isPrefix "dom/".toList r then (r.drop 4).reverse else noExt)
+
+/-- files referenced (by path or by a non-inline `mod` declaration) from non-test code of `file` -/
+def refsOf (file : String) : List String :=
+  (facts.filter fun f => f.file == file && !f.test).flatMap fun f =>
+    if f.kind == "crate_path" then pathTargets f.detail
+    else if f.kind == "mod" && !has f.detail " inline" && file != "lib.rs" then
+      moduleFiles (stemOf file ++ "/" ++ (segsOf f.detail).headD "" |>.toList |> (fun cs => String.ofList (cs.takeWhile (· != ' '))))
+    else []
+
+def closeStep (cur : List String) : List String :=
+  (cur ++ cur.flatMap refsOf).eraseDups
+
+/-- the files `PortableHash` executes: reachable from its own files in at most `files.length` steps -/
+def portableClosure : List String :=
+  (List.range files.length).foldl (fun acc _ => closeStep acc) coreFiles
+
 end HH.FactsLib
